@@ -22,6 +22,9 @@ type Republisher struct {
 	pubfunc          PubFunc
 	update           chan cid.Cid
 	immediatePublish chan chan struct{}
+	// updateLock makes the drain-then-send in Update atomic with respect to
+	// the run loop grabbing the latest value for a WaitPub caller.
+	updateLock sync.Mutex
 
 	cancel    func()
 	closeOnce sync.Once
@@ -84,6 +87,8 @@ func (rp *Republisher) Close() error {
 // Update the current value. The value will be published after a delay but each
 // consecutive call to Update may extend this delay up to TimeoutLong.
 func (rp *Republisher) Update(c cid.Cid) {
+	rp.updateLock.Lock()
+	defer rp.updateLock.Unlock()
 	select {
 	case <-rp.update:
 		select {
@@ -161,10 +166,12 @@ func (rp *Republisher) run(ctx context.Context, timeoutShort, timeoutLong time.D
 			continue
 		case waiter = <-immediatePublish:
 			// Make sure to grab the *latest* value to publish.
+			rp.updateLock.Lock()
 			select {
 			case toPublish = <-rp.update:
 			default:
 			}
+			rp.updateLock.Unlock()
 
 			// Avoid publishing duplicate values
 			if lastPublished.Equals(toPublish) {
